@@ -413,6 +413,64 @@ def run(tier, seed):
                         "tags": ["prefix-skipped"]}
                 run.fail(case, "proper prefix of a valid encoding was skipped without an error during schema resolution", kind="oracle")
                 break
+    # ---- a valid encoding that does not start at offset 0 of a seekable stream (a frame header before it, values back to
+    # back, a file that was seeked): decoded exactly as when it stands alone
+    import tempfile
+    pos_schema = {"type": "record", "name": "Msg", "fields": [{"name": "id", "type": "long"}, {"name": "tags", "type": {"type": "map", "values": "string"}},
+                                                             {"name": "body", "type": "bytes"}, {"name": "note", "type": ["null", "string"]}]}
+    pps = fastavro.parse_schema(json.loads(json.dumps(pos_schema)))
+    for v in ({"id": 1, "tags": {"k": "v"}, "body": b"xyz", "note": "the end"}, {"id": -5, "tags": {}, "body": b"", "note": None},
+              {"id": 2 ** 40, "tags": {"a": "b", "cc": "dd"}, "body": b"\x00" * 40, "note": "n" * 30}):
+        fo = io.BytesIO()
+        fastavro.schemaless_writer(fo, pps, v)
+        b = fo.getvalue()
+        alone = read_impl(pps, b)
+        for p_ in (1, 2, 7, len(b), len(b) + 5, 300):
+            for kind in ("BytesIO", "real-file"):
+                if kind == "BytesIO":
+                    st = io.BytesIO(b"\xAA" * p_ + b)
+                else:
+                    st = tempfile.TemporaryFile("w+b")
+                    st.write(b"\xAA" * p_ + b)
+                st.seek(p_)
+                try:
+                    got = {"ok": to_wire(fastavro.schemaless_reader(st, pps)), "rest": len(b) + p_ - st.tell()}
+                except Exception as e:  # noqa
+                    got = {"err": exc_class(e)}
+                finally:
+                    if kind != "BytesIO":
+                        st.close()
+                case = {"schema": pos_schema, "bytes": b.hex(), "start_offset": p_, "stream": kind, "tags": ["positioned-stream"]}
+                run.count(case, True, ["positioned-stream:" + kind])
+                if got != alone:
+                    case["impl"], case["alone"] = got, alone
+                    run.fail(case, "a valid encoding read from a stream positioned at offset %d decodes differently from the same bytes alone" % p_, kind="oracle")
+    # ---- many decodes that fail INSIDE a skipped value reached through a by-name reference (truncation, bad index), then valid
+    # input: earlier failures leave nothing behind
+    node = {"type": "record", "name": "Node", "fields": [{"name": "v", "type": "int"}, {"name": "next", "type": ["null", "Node"]}]}
+    w_ = {"type": "record", "name": "Env", "fields": [{"name": "keep", "type": "int"}, {"name": "drop", "type": node}, {"name": "again", "type": ["null", "Node"]},
+                                                        {"name": "tail", "type": "string"}]}
+    r_ = {"type": "record", "name": "Env", "fields": [{"name": "keep", "type": "int"}, {"name": "again", "type": ["null", node]}, {"name": "tail", "type": "string"}]}
+    wp = fastavro.parse_schema(json.loads(json.dumps(w_)))
+    chain = None
+    for i_ in range(12):
+        chain = {"v": i_, "next": chain}
+    fo = io.BytesIO()
+    fastavro.schemaless_writer(fo, wp, {"keep": 1, "drop": chain, "again": {"v": 9, "next": None}, "tail": "t"})
+    good = fo.getvalue()
+    before = read_impl(wp, good, json.loads(json.dumps(r_)))
+    for rounds in range(15):
+        for cut in (len(good) - 5, 20, 9):
+            read_impl(wp, good[:cut], json.loads(json.dumps(r_)))
+        bad_idx = good[:3] + enc_long(7) + good[4:]
+        read_impl(wp, bad_idx, json.loads(json.dumps(r_)))
+    after = read_impl(wp, good, json.loads(json.dumps(r_)))
+    after_plain = read_impl(wp, good)
+    case = {"schema": w_, "reader_schema": r_, "bytes": good.hex(), "tags": ["after-failed-skips"]}
+    run.count(case, True, ["after-failed-skips"])
+    if after != before or "ok" not in after_plain:
+        case["before"], case["after"], case["after_without_reader_schema"] = before, after, after_plain
+        run.fail(case, "a valid encoding is decoded differently after a series of decodes that failed inside a skipped value", kind="oracle")
     return run.finish()
 
 
